@@ -681,4 +681,119 @@ theorem runPar_inv (c : Cfg V L E) (file0 : Bytes) (sched : List Act) (s : CStat
   | nil => exact hs
   | cons a t ih => exact ih _ (act_inv c file0 s hs a)
 
+/-! ### `func` is started at most once by kill-free concurrent callers -/
+
+def PState.busy : PState V L E → Bool
+  | .computing | .writing _ => true
+  | _ => false
+
+/-- bookkeeping invariant for kill-free schedules of a returning function: `func` has been started at most once, and if
+it was, either the process that started it is still at work under the lock, or the entry is complete -/
+def EInv (c : Cfg V L E) (file0 : Bytes) (v : V) (l : L) (s : CState V L E) : Prop :=
+  (s.execs = 0 ∧ ∀ q, (s.procs q).busy = false) ∨
+  (s.execs = 1 ∧ ((∃ p, s.holder = some p ∧ (s.procs p).busy = true) ∨ lookup c (base c file0 s) = .hit v l))
+
+theorem base_stay (c : Cfg V L E) (file0 : Bytes) (s : CState V L E) (file' : Bytes) (procs' : Nat → PState V L E) (execs' : Nat) (holder' : Option Nat) :
+    base c file0 { s with file := file', procs := procs', execs := execs', holder := holder' } = base c file0 s := rfl
+
+theorem act_einv (c : Cfg V L E) (P : Hyps c) (file0 : Bytes) (hg0 : Good c file0) (v : V) (l : L) (hf : c.f = .ret v l)
+    (s : CState V L E) (hs : CInv c file0 s) (he : EInv c file0 v l s) (p : Nat) :
+    EInv c file0 v l (act c true s (.step p)) := by
+  have hgood : Good c (base c file0 s) := fileAfter_good c P _ _ hg0
+  simp only [act]
+  generalize hp : s.procs p = st0
+  cases st0 with
+  | idle =>
+    simp only [if_true]
+    by_cases hh : s.holder = none
+    · rw [if_pos hh]
+      rcases he with ⟨h0, hb⟩ | ⟨h1, hd⟩
+      · left; refine ⟨h0, fun q => ?_⟩
+        simp only [setProc]; split
+        · rfl
+        · exact hb q
+      · right; refine ⟨h1, ?_⟩
+        rcases hd with ⟨p', hp', _⟩ | hd
+        · rw [hh] at hp'; cases hp'
+        · right; exact hd
+    · rw [if_neg hh]; exact he
+  | locked =>
+    have hcr : (s.procs p).critical = true := by rw [hp]; rfl
+    have hh := hs.mutex p hcr
+    have hfile := hs.file
+    unfold FileRel at hfile; simp only [hh, hp] at hfile
+    simp only []
+    cases hl : lookup c s.file with
+    | hit v' l' =>
+      simp only []
+      have hb : base c file0 (release s p (.done (.ret v' l' 0)) .none) = base c file0 s := by
+        rw [base_release]; rw [hfile] at hl; simp only [call, hl]
+      rcases he with ⟨h0, hb0⟩ | ⟨h1, hd⟩
+      · left; refine ⟨h0, fun q => ?_⟩
+        simp only [release, setProc]; split
+        · rfl
+        · exact hb0 q
+      · right; refine ⟨h1, ?_⟩
+        rcases hd with ⟨p', hp', hbusy⟩ | hd
+        · rw [hh] at hp'; cases hp'; rw [hp] at hbusy; cases hbusy
+        · right; rw [hb]; exact hd
+    | escape e =>
+      simp only []
+      have hb : base c file0 (release s p (.done (.loadCrash e)) .none) = base c file0 s := by
+        rw [base_release]; rw [hfile] at hl; simp only [call, hl]
+      rcases he with ⟨h0, hb0⟩ | ⟨h1, hd⟩
+      · left; refine ⟨h0, fun q => ?_⟩
+        simp only [release, setProc]; split
+        · rfl
+        · exact hb0 q
+      · right; refine ⟨h1, ?_⟩
+        rcases hd with ⟨p', hp', hbusy⟩ | hd
+        · rw [hh] at hp'; cases hp'; rw [hp] at hbusy; cases hbusy
+        · right; rw [hb]; exact hd
+    | miss =>
+      simp only []
+      rcases he with ⟨h0, hb0⟩ | ⟨h1, hd⟩
+      · right; refine ⟨by simp [h0], Or.inl ⟨p, hh, ?_⟩⟩
+        simp [setProc, PState.busy]
+      · exfalso
+        rcases hd with ⟨p', hp', hbusy⟩ | hd
+        · rw [hh] at hp'; cases hp'; rw [hp] at hbusy; cases hbusy
+        · rw [← hfile, hl] at hd; cases hd
+  | computing =>
+    have hcr : (s.procs p).critical = true := by rw [hp]; rfl
+    have hh := hs.mutex p hcr
+    simp only [hf]
+    rcases he with ⟨h0, hb0⟩ | ⟨h1, hd⟩
+    · have := hb0 p; rw [hp] at this; cases this
+    · right; refine ⟨h1, Or.inl ⟨p, hh, ?_⟩⟩
+      simp [setProc, PState.busy]
+  | writing k =>
+    have hcr : (s.procs p).critical = true := by rw [hp]; rfl
+    have hh := hs.mutex p hcr
+    have hfile := hs.file
+    unfold FileRel at hfile; simp only [hh, hp] at hfile
+    obtain ⟨v', l', hc, hk, hfl, hm⟩ := hfile
+    rw [hf] at hc; cases hc
+    simp only [hf]
+    rcases he with ⟨h0, hb0⟩ | ⟨h1, hd⟩
+    · have := hb0 p; rw [hp] at this; cases this
+    · by_cases hlt : k < (entryBytes c p v l).length
+      · rw [dif_pos hlt]
+        right; refine ⟨h1, Or.inl ⟨p, hh, ?_⟩⟩
+        simp [setProc, PState.busy]
+      · rw [dif_neg hlt]
+        right; refine ⟨h1, Or.inr ?_⟩
+        rw [base_release]
+        simp only [call, hm, hf]
+        -- the base was a proper prefix (lookup missed), so the complete write leaves exactly the entry
+        unfold Good at hgood; rw [hf] at hgood
+        have hpre : base c file0 s <+: entryBytes c 0 v l := by
+          rcases hgood with h | h
+          · exact h
+          · have := lookup_complete c P hf _ h; rw [hm] at this; cases this
+        rw [P.h3 v l p 0 hf, overlay_full _ _ hpre]
+        exact lookup_complete c P hf _ (List.prefix_refl _)
+  | done out => exact he
+  | dead => exact he
+
 end NutilsVerif.C18
